@@ -1262,3 +1262,108 @@ Example answer_georef_nonvacuous :
   wms_map_answer (30000, 30000, 45000, 40000) 300 200 (Some (0, 0, 40960, 40960)) =
     (((30000, 30000, 40960, 40000), (219, 200)%Z, (0, 0)%Z), ((30000, 40000), ((45000 - 30000) / 300, (40000 - 30000) / 200))).
 Proof. vm_compute. reflexivity. Qed.
+
+(* ---- _load_tile_coords: every created tile lands in the cell of its own coordinate ---- *)
+Section LoadAssignProofs.
+Local Open Scope Z_scope.
+Context {A : Type}.
+Lemma lcoord_eqb_eq a b : lcoord_eqb a b = true <-> a = b.
+Proof.
+  destruct a as [[x y] z], b as [[x' y'] z']; simpl.
+  rewrite !andb_true_iff, !Z.eqb_eq. split.
+  - intros [[-> ->] ->]; reflexivity.
+  - intros H; inversion H; auto.
+Qed.
+
+Lemma coll_store_coords (cells : list (lcell A)) c v : map fst (fst (coll_store cells c v)) = map fst cells.
+Proof.
+  induction cells as [|[c' s] r IH]; simpl; [reflexivity|].
+  destruct (coll_store r c v) as [r' d]; simpl in *.
+  destruct d; [|destruct (ocoord_is c c')]; simpl; rewrite IH; reflexivity.
+Qed.
+
+Lemma coll_store_done (cells : list (lcell A)) c v : snd (coll_store cells c v) = existsb (ocoord_is c) (map fst cells).
+Proof.
+  induction cells as [|[c' s] r IH]; simpl; [reflexivity|].
+  destruct (coll_store r c v) as [r' d]; simpl in *. rewrite <- IH.
+  destruct d; simpl; [rewrite orb_true_r; reflexivity|].
+  destruct (ocoord_is c c'); reflexivity.
+Qed.
+
+Lemma coll_store_other (cells : list (lcell A)) c v k oc s :
+  nth_error cells k = Some (oc, s) -> ocoord_is c oc = false ->
+  nth_error (fst (coll_store cells c v)) k = Some (oc, s).
+Proof.
+  revert k; induction cells as [|[c' s'] r IH]; intros k Hk Hoc; [destruct k; discriminate|].
+  simpl. specialize (IH (pred k)).
+  destruct (coll_store r c v) as [r' d]; simpl in *.
+  destruct k as [|k]; simpl in *.
+  - inversion Hk; subst. destruct d; simpl; [reflexivity|]. rewrite Hoc. reflexivity.
+  - specialize (IH Hk Hoc). destruct d; [|destruct (ocoord_is c c')]; simpl; exact IH.
+Qed.
+
+Lemma coll_store_own (cells : list (lcell A)) c v k s :
+  nth_error cells k = Some (Some c, s) ->
+  (forall j, nth_error (map fst cells) j = Some (Some c) -> j = k) ->
+  nth_error (fst (coll_store cells c v)) k = Some (Some c, Some v).
+Proof.
+  revert k; induction cells as [|[c' s'] r IH]; intros k Hk Hu; [destruct k; discriminate|].
+  simpl. pose proof (coll_store_done r c v) as Hd. specialize (IH (pred k)).
+  destruct (coll_store r c v) as [r' d]; simpl in *.
+  destruct k as [|k]; simpl in *.
+  - injection Hk as Hc Hs; subst c' s'.
+    assert (d = false) as ->.
+    { rewrite Hd. apply not_true_is_false. intros He. apply existsb_exists in He.
+      destruct He as [o [Hin Ho]]. destruct o as [c2|]; simpl in Ho; [|discriminate].
+      apply lcoord_eqb_eq in Ho; subst c2. apply In_nth_error in Hin. destruct Hin as [j Hj].
+      specialize (Hu (S j) Hj). discriminate. }
+    simpl. assert (lcoord_eqb c c = true) as -> by (apply lcoord_eqb_eq; reflexivity). reflexivity.
+  - assert (ocoord_is c c' = false) as Hc'.
+    { apply not_true_is_false. intros He. destruct c' as [c2|]; simpl in He; [|discriminate].
+      apply lcoord_eqb_eq in He; subst c2. specialize (Hu 0%nat eq_refl). discriminate. }
+    assert (nth_error (fst (r', d)) k = Some (Some c, Some v)) as IH'.
+    { apply IH; [exact Hk|]. intros j Hj. specialize (Hu (S j) Hj). lia. }
+    simpl in IH'. destruct d; simpl; [exact IH'|]. rewrite Hc'. simpl. exact IH'.
+Qed.
+
+Lemma load_assign_own created : forall (cells : list (lcell A)) k c v,
+  nth_error (map fst cells) k = Some (Some c) ->
+  (forall j, nth_error (map fst cells) j = Some (Some c) -> j = k) ->
+  (forall v', In (c, v') created -> v' = v) ->
+  (In (c, v) created \/ nth_error cells k = Some (Some c, Some v)) ->
+  nth_error (load_assign cells created) k = Some (Some c, Some v).
+Proof.
+  induction created as [|[c1 v1] cr IH]; intros cells k c v Hk Hu Hf Hin.
+  - simpl. destruct Hin as [[]|H]; exact H.
+  - unfold load_assign; simpl. fold (load_assign (fst (coll_store cells c1 v1)) cr).
+    apply IH.
+    + rewrite coll_store_coords; exact Hk.
+    + rewrite coll_store_coords; exact Hu.
+    + intros v' H; apply Hf; right; exact H.
+    + destruct (lcoord_eqb c c1) eqn:E.
+      * apply lcoord_eqb_eq in E; subst c1. assert (v1 = v) as -> by (apply Hf; left; reflexivity).
+        right. assert (exists s, nth_error cells k = Some (Some c, s)) as [s Hc].
+        { clear - Hk. revert k Hk. induction cells as [|[oc s] r IHr]; intros [|k] Hk; simpl in *; try discriminate.
+          - injection Hk as ->. eexists; reflexivity.
+          - apply IHr; exact Hk. }
+        eapply coll_store_own; eauto.
+      * destruct Hin as [[H|H]|H].
+        -- inversion H; subst. assert (lcoord_eqb c c = true) by (apply lcoord_eqb_eq; reflexivity). congruence.
+        -- left; exact H.
+        -- right. apply coll_store_other; [exact H|]. simpl. exact E.
+Qed.
+End LoadAssignProofs.
+
+Lemma load_assign_created_own (A : Type) (created : list (lcoord * A)) (cells : list (lcell A)) k c v :
+  nth_error (map fst cells) k = Some (Some c) ->
+  (forall j, nth_error (map fst cells) j = Some (Some c) -> j = k) ->
+  (forall v', In (c, v') created -> v' = v) ->
+  In (c, v) created ->
+  nth_error (load_assign cells created) k = Some (Some c, Some v).
+Proof. intros; eapply load_assign_own; eauto. Qed.
+
+Example load_assign_nonvacuous :
+  load_assign [(Some (0, 0, 1)%Z, None); (Some (1, 0, 1)%Z, None); (Some (0, 1, 1)%Z, None); (Some (1, 1, 1)%Z, None); (None, None)]
+              [((0, 0, 1)%Z, 10%nat); ((0, 1, 1)%Z, 12%nat); ((1, 0, 1)%Z, 11%nat); ((1, 1, 1)%Z, 13%nat); ((5, 5, 1)%Z, 99%nat)]
+  = [(Some (0, 0, 1)%Z, Some 10%nat); (Some (1, 0, 1)%Z, Some 11%nat); (Some (0, 1, 1)%Z, Some 12%nat); (Some (1, 1, 1)%Z, Some 13%nat); (None, None)].
+Proof. vm_compute. reflexivity. Qed.
